@@ -39,6 +39,14 @@ PROPS = {
         "assumptions": ["consequences for decrypted folder content (last writer wins, deletes) go through the folder reducer (C02)"],
         "timeout": {"quick": 1500, "thorough": 7200},
     },
+    "C09": {
+        "lean": ["SosModel.Props.C09"],
+        "runs": [{"crate": "haccount", "domain": "sched"}],
+        "classes": r"^c09-",
+        "trusted_base": [HASH_TB, LOG_TB, "request granularity: the server handles one request at a time under the account write lock (handlers take account.write()); scheduling inside one request, tokio/OS thread interleavings and lock fairness are not modelled"],
+        "assumptions": ["partial: real thread interleavings inside one request cannot be exhibited by the model; interleavings are sampled by the harness scheduler (validation and search, not the proof)"],
+        "timeout": {"quick": 1500, "thorough": 7200},
+    },
     "C06": {
         "lean": ["SosModel.Props.C06"],
         "runs": [{"crate": "hbackend", "domain": "log"}],
